@@ -49,8 +49,13 @@ def match_children(enodes, pnodes):
         cands = by_name.get(e.name, [])
         pick = None
         want_leaf = not e.children
+        if len(cands) > 1:
+            # same-named siblings (a function and a module may share a name): prefer the printed node whose children overlap most
+            want = {c.name for c in e.children}
+            best = max(cands, key=lambda c: (c.is_leaf() == want_leaf, len(want & {x.name for x in c.children}), -len({x.name for x in c.children} - want)))
+            pick = best
         for c in cands:
-            if c.is_leaf() == want_leaf:
+            if pick is None and c.is_leaf() == want_leaf:
                 pick = c
                 break
         if pick is None and cands:
